@@ -9,6 +9,11 @@ SUITES = [Suite("prio2-det", prio.prio_generate(0.1, STYLES), prio.prio_project(
 SUITES.append(Suite("prio1-det", prio.prio1_generate(0.1, 0.0), prio.prio1_project("C01"), prio.monitor_prio1("C01"),
                     rule=prio.PRIO1_RULE, version="v1", impl_ints=False, batch_timeout=300, shrink=prio.shrink_prio1))
 
+SUITES.append(Suite("prio1-few-handlers", prio.prio1_few_handlers_generate(), prio.prio1_project("C01"), prio.monitor_prio1("C01"),
+                    rule=prio.PRIO1_RULE + "; this suite: HandlersQuantity 1..3, below what the registered priorities need (zero shares): "
+                    "only the capacity bound and the agreement with the model are checked there", version="v1", impl_ints=False,
+                    batch_timeout=300, shrink=prio.shrink_prio1))
+
 SUITES.append(Suite("simple2", prio.simple2_generate(), prio.simple2_project, prio.monitor_simple2("C01"),
                     rule=prio.SIMPLE2_RULE, version="v2", impl_ints=False, batch_timeout=300))
 
